@@ -417,6 +417,17 @@ let run_case (oc : out_channel) (c : case) : unit =
            | DeOk (h2, g2) -> Printf.sprintf "%s de ok %s" (order_str order) (graph_snap directed h2 g2)
            | DeMissing _ -> Printf.sprintf "%s de err" (order_str order))
       | "gdebytes" -> "exercise-only"
+      | "ecmp" ->
+          (* ecmp u i v j : compare the i-th iterated edge of u with the j-th iterated edge of v *)
+          let u = nat_of_int (ios st.(1)) and v = nat_of_int (ios st.(3)) in
+          let l x = if directed then (!h).outs x else adj_u !h x in
+          (match List.nth_opt (l u) (ios st.(2)), List.nth_opt (l v) (ios st.(4)) with
+           | Some (t1, e1), Some (t2, e2) ->
+               let a = ((u, t1), e1) and b = ((v, t2), e2) in
+               let eq = if directed then edge_eqb_d keqb !h a b else edge_eqb_u N.compare a b in
+               let c = edge_cmp N.compare a b in
+               Printf.sprintf "ecmp eq=%d cmp=%s pcmp=Some(%s)" (b2i eq) (cmp_name c) (cmp_name c)
+           | _, _ -> "none")
       | "thr" -> "ok"
       | "sched" ->
           let cfg = init_config keqb directed !h (thread_progs c) in
